@@ -39,6 +39,7 @@ REPLAY = {
 
 def run(ctx, rep):
     vxref.quiet_panics(True)
+    rep.max_samples = max(rep.max_samples, 12)
     try:
         for name, fn in SPACES:
             if not ctx.wants(name):
@@ -49,6 +50,10 @@ def run(ctx, rep):
             fn(ctx, rep)
     finally:
         vxref.force(None)
+    rep.note("histories key soundness: the striped buffer's state is (content, number of look-ahead rows); look-ahead rows only grow (to the largest width - 1 "
+             "used so far) and the order of growth steps is kept in the key; a scores object is a function of (sequence, motif) by the comparison made on the "
+             "transition that created it; copy / held view / held scanner are explicit key components; the key is model-derived because Python exposes no "
+             "accessor for the number of look-ahead rows")
     rep.note("thresholds are finite; NaN / +inf matrix cells, block size 0 and zero-width motifs only appear in the `errors` space (no-panic / no-hang demand)")
     rep.note("buffer-protocol details, negative indices and __getitem__ bounds belong to C18; memoryview is only taken and held here")
 
